@@ -29,6 +29,8 @@ func init() {
 		"time.Sleep":                                  noop,
 		"sync/atomic.AddInt32":                        havocResult("atomic"),
 		"sync/atomic.AddUint32":                       havocResult("atomic"),
+		"(*sync/atomic.Bool).Load":                    atomicBoolLoad,
+		"(*sync/atomic.Bool).Store":                   atomicBoolStore,
 		"(*sync.Mutex).Lock":                          mutexLock,
 		"(*sync.Mutex).Unlock":                        mutexUnlock,
 		"(*sync.Cond).Signal":                         noop,
@@ -754,6 +756,41 @@ func urlValuesSet(e *Engine, st *State, args []Value, depth int, pos string, k f
 					st.addTrace(TraceEv{Kind: "urlopt", Text: key, Pos: pos, Terms: map[string]Term{"v": vs.T}})
 				}
 			}
+		}
+	}
+	k(st, nil)
+}
+
+// sync/atomic.Bool: the flag lives in the struct's last field (v uint32); sequentially consistent, no tearing (A-MUTEX)
+func atomicBoolTerm(e *Engine, st *State, recv Value) (VPtr, VStruct, Term, bool) {
+	p, ok := recv.(VPtr)
+	if !ok {
+		return VPtr{}, VStruct{}, Term{}, false
+	}
+	sv, ok := e.load(st, p).(VStruct)
+	if !ok || len(sv.F) == 0 {
+		return VPtr{}, VStruct{}, Term{}, false
+	}
+	if f, ok := sv.F[len(sv.F)-1].(VSym); ok && f.T.Sort == SInt {
+		return p, sv, f.T, true
+	}
+	return VPtr{}, VStruct{}, Term{}, false
+}
+
+func atomicBoolLoad(e *Engine, st *State, args []Value, depth int, pos string, k func(*State, Value)) {
+	if _, _, t, ok := atomicBoolTerm(e, st, args[0]); ok {
+		k(st, sym(Not(Eq(t, IntLit(0)))))
+		return
+	}
+	k(st, sym(e.fresh(st, "atomicbool", SBool)))
+}
+
+func atomicBoolStore(e *Engine, st *State, args []Value, depth int, pos string, k func(*State, Value)) {
+	if p, sv, _, ok := atomicBoolTerm(e, st, args[0]); ok {
+		if b, ok := args[1].(VSym); ok {
+			nf := append([]Value{}, sv.F...)
+			nf[len(nf)-1] = sym(Ite(b.T, IntLit(1), IntLit(0)))
+			e.store(st, p, VStruct{nf})
 		}
 	}
 	k(st, nil)
